@@ -23,8 +23,8 @@ PROP = dict(
     exhaustive=True,
     units=[
         U("registry", "./encoding/proto", "^(TestVerifC27_Registry|TestVerifC27_ResultKinds)$", 1, 1, sq=1, sth=1, rapid=False),
-        U("roundtrip", "./encoding/proto", "^TestVerifC27_RoundTrip$", 12000, 600000, sq=3, sth=8),
-        U("bytes", "./encoding/proto", "^TestVerifC27_Bytes$", 24000, 1200000, sq=4, sth=10),
+        U("roundtrip", "./encoding/proto", "^TestVerifC27_RoundTrip$", 30000, 900000, sq=3, sth=8),
+        U("bytes", "./encoding/proto", "^TestVerifC27_Bytes$", 60000, 2400000, sq=4, sth=10),
         U("framing", ".", "^TestVerifC27_Framing$", 1, 1, sq=1, sth=1, rapid=False),
     ],
 )
